@@ -137,14 +137,14 @@ def deliver (encName : String) (e : Enc) (wchunks : List (List Nat)) : Except St
     let cs := wchunks.filter (· ≠ [])
     .ok (cs.flatten, cs.map List.length)
   | .utf16 =>
-    match streamChunks XalanModel.Generated.C04.streamBufferSize wchunks with
+    match streamChunksF XalanModel.Generated.C04.streamBufferSize XalanModel.Generated.C04.bulkFlushStream wchunks with
     | none => .error "mem"
     | some sc =>
       let cs := sc.filter (· ≠ [])
       let bytes := cs.map fun c => c.flatMap fun u => [u % 256, u / 256 % 256]
       .ok ([0xFF, 0xFE] ++ bytes.flatten, 2 :: bytes.map List.length)
   | .other =>
-    match streamChunks XalanModel.Generated.C04.streamBufferSize wchunks with
+    match streamChunksF XalanModel.Generated.C04.streamBufferSize XalanModel.Generated.C04.bulkFlushStream wchunks with
     | none => .error "mem"
     | some sc =>
       let cs := sc.filter (· ≠ [])
